@@ -62,6 +62,11 @@ CHECKS = {
             "For ALL vectors and points away from the singularities z3 decides both round trips for both pairs, that curvilinear dot product, magnitude and scaling equal the Cartesian ones, and that a rebased scalar field has the same value at the same physical point (both directions, principal ranges); the finite set of refusal combinations is enumerated completely.",
             "Trusted: z3 nlsat, the sound trig axioms of vlib/s2smt.py, sympy.vector.express, the textbook position maps in checks/c11.py. Singular points and non-principal angles are outside.",
             "3.11"),
+    "C13": ("S", "other",
+            "real integral helpers (SymPy integrate/simplify inside) executed on generic polynomial fields with one symbolic coefficient per monomial; both sides of each theorem compared by z3 as polynomial identities in coefficients, sizes and pi (free)",
+            "For ALL polynomial fields up to the stated degree and ALL region sizes z3 decides Stokes (circle, ellipse, rectangle, disc as Cartesian region), Green (same, plus left-handed parameter order) and Gauss (box) and independence of parametrisation speed / sign change under reversal; every result must be free of coordinate variables.",
+            "Trusted: z3 nlsat. SymPy's integrate/simplify are part of the code under test. Non-polynomial fields and other regions are outside.",
+            "3.13"),
 }
 
 NOT_APPLICABLE = {
